@@ -3,11 +3,13 @@ from .relcommon import run_rel, replay_rel
 
 RULE = ('datasets (sources, transforms, merges) grouped by one key field, two key fields (hash ids), a callable, or a '
         'non-string field (TypeError); ids and every field on all universe ids, group keys and a foreign id compared with '
-        'CM.Model.Rel and the reference dict comprehension. Non-trivial: >= 2 groups')
+        'CM.Model.Rel and the reference dict comprehension; Split layers whose __split__ is a table over (id[, key field]) yielding '
+        '0-3 parts per entry, sometimes colliding new ids (between entries and within one entry), own fields over (field, __part__) and '
+        'inherited fields, over sources, transforms and merges. Non-trivial: >= 2 new ids')
 
 
 def run(tier, seed, res, lean):
-    run_rel('C17', ['groupby'], tier, seed, res, lean, RULE)
+    run_rel('C17', ['groupby', 'split'], tier, seed, res, lean, RULE)
 
 
 replay = replay_rel
